@@ -432,6 +432,9 @@ def run(prog, rep, tier, snap):
     from . import c07
     rep.rule("R07.12", "the seed of the next batch is kept on the wall clock, before the batch is converted and sorted (shared with C07)", 3)
     rep.call(c07.r07_12, prog, rep)
+    from . import c08
+    rep.rule("R08.9", "echs_instant_add(), through which every occurrence of a zoned rule is converted, agrees with the calendar (shared with C08)", 1)
+    rep.call(c08.r08_9, prog, rep)
     from ..rules import encodings
     rep.rule("R16.7", "the COUNT the reader stores is the COUNT that was written (no narrowing on the way into the rule)", 12)
     rep.call(encodings.r05_4c, prog, rep, "R16.7")
